@@ -14,6 +14,7 @@ import (
 	"verif/mc/props/c12"
 	"verif/mc/props/c13"
 	"verif/mc/props/c14"
+	"verif/mc/props/c17"
 	"verif/mc/props/c19"
 )
 
@@ -30,6 +31,7 @@ func main() {
 		"C12": c12.Prop,
 		"C13": c13.Prop,
 		"C14": c14.Prop,
+		"C17": c17.Prop,
 		"C19": c19.Prop,
 	})
 }
